@@ -13,5 +13,7 @@ CONSTANTS
   FIX_TRYREMOVE_LOADING = TRUE
   FIX_ADD_CLOSED = TRUE
   FIX_TRYREMOVE_ERR = FALSE
+  CloseDeadline = TRUE
+  BOUND_LOADS = FALSE
   Loose = FALSE
 INVARIANT NoStuck
